@@ -18,8 +18,10 @@ func newVxStyle() *vxStyle {
 
 func (s *vxStyle) Set(key pr.PropKey, value pr.CssProperty) { s.Properties[key.KnownProp] = value }
 func (s *vxStyle) Get(key pr.PropKey) pr.CssProperty        { return s.Properties[key.KnownProp] }
-func (s *vxStyle) Copy() pr.ElementStyle                    { return &vxStyle{Properties: s.Properties.Copy(), parent: s.parent} }
-func (s *vxStyle) ParentStyle() pr.ElementStyle             { return s.parent }
-func (s *vxStyle) Variables() map[string]pr.RawTokens       { return nil }
-func (s *vxStyle) Specified() pr.SpecifiedAttributes        { return pr.SpecifiedAttributes{} }
-func (s *vxStyle) Cache() pr.TextRatioCache                 { return pr.NewTextRatioCache() }
+func (s *vxStyle) Copy() pr.ElementStyle {
+	return &vxStyle{Properties: s.Properties.Copy(), parent: s.parent}
+}
+func (s *vxStyle) ParentStyle() pr.ElementStyle       { return s.parent }
+func (s *vxStyle) Variables() map[string]pr.RawTokens { return nil }
+func (s *vxStyle) Specified() pr.SpecifiedAttributes  { return pr.SpecifiedAttributes{} }
+func (s *vxStyle) Cache() pr.TextRatioCache           { return pr.NewTextRatioCache() }
